@@ -720,6 +720,41 @@ func fineEmptyVsRequeue(seed uint64, viaReq bool) []lib.Case {
 	return []lib.Case{cr.finish(name+"#"+strconv.FormatUint(seed, 10), seed, hidden, ignore)}
 }
 
+// ---- Channel.Empty while the DEFERRED scan is between its pop and its put: the empty waits
+// (exit lock), so the released message is discarded with the rest ----
+func fineEmptyVsDeferredScan(seed uint64) []lib.Case {
+	cr := newFineCase(seed, 10)
+	cr.opCreateTopic(1)
+	cr.opCreateChan(1, 1)
+	cr.opPub(1, 1, true, false) // a deferred publish: sits in the channel's deferred set
+	tg := cr.nextTag
+	cr.opPauseChan(1, 1, true)
+	reached, release := nsqd.VerifArmPark("scan-deferred:after-pop", 1)
+	at := time.Now().Add(2 * time.Hour).UnixNano()
+	moved := make(chan struct{})
+	go func() { cr.d.VerifScan(tname(1), cname(1), at, false); close(moved) }()
+	ok := waitReached(reached, 3*time.Second)
+	cr.tag(fmt.Sprintf("requeue-parked=%v", ok))
+	cr.ev(fmt.Sprintf("EOp (OScanDeferred 1 1 %s) ROk", z(at)))
+	cr.ev(fmt.Sprintf("EExpired 1 1 false [%d]%%N", tg))
+	done := make(chan int, 1)
+	go func() { done <- cr.post("/channel/empty", url.Values{"topic": {tname(1)}, "channel": {cname(1)}}, nil) }()
+	time.Sleep(150 * time.Millisecond)
+	release()
+	<-moved
+	code := <-done
+	cr.ev(fmt.Sprintf("EOp (OEmptyChan 1 1) %s", httpResp(code)))
+	cr.tag("empty-channel")
+	cr.nontriv = true
+	cr.after()
+	cr.opPauseChan(1, 1, false)
+	k1 := cr.opConnect(false, false)
+	cr.opSub(k1, 1, 1)
+	cr.opRdy(k1, 1) // whatever survived the empty would be delivered now
+	cr.opPub(1, 1, false, false)
+	return []lib.Case{cr.finish("dscan-vs-empty#"+strconv.FormatUint(seed, 10), seed, nil, nil)}
+}
+
 // A publish that has passed the topic's exit check while the topic is being deleted: the
 // delete must wait for it (it takes the topic's write lock before it empties and removes the
 // queues), so that nothing the publish writes to disk survives the delete.
@@ -876,6 +911,7 @@ var fineScenarios = map[string]func(uint64) []lib.Case{
 	"exit-vs-touch":                  fineExitWhileTouching,
 	"touch-vs-timeout-scan":          fineTouchWhileScanExpires,
 	"touch-vs-empty":                 fineEmptyWhileTouching,
+	"dscan-vs-empty":                 fineEmptyVsDeferredScan,
 	"two-deletes-on-ephemeral-topic": fineTwoDeletesOnEphemeralTopic,
 	"touch-cap":                      fineTouchCapAfterRedelivery,
 	"pub-vs-topic-delete":            finePubWhileTopicDeleting,
@@ -898,7 +934,7 @@ var fineScenarios = map[string]func(uint64) []lib.Case{
 // which forced interleavings each property's profile runs
 var fineByProfile = map[string][]string{
 	"c01": {"pump-vs-sub", "deliver-vs-disconnect", "touch-cap", "exit-vs-pub"},
-	"c08": {"deliver-vs-empty", "sub-vs-topic-delete", "fin-vs-empty", "empty-vs-wakeup", "scan-vs-empty", "req-vs-empty", "pub-vs-topic-delete", "two-deletes-on-ephemeral-topic", "touch-vs-empty"},
+	"c08": {"deliver-vs-empty", "sub-vs-topic-delete", "fin-vs-empty", "empty-vs-wakeup", "scan-vs-empty", "req-vs-empty", "pub-vs-topic-delete", "two-deletes-on-ephemeral-topic", "touch-vs-empty", "dscan-vs-empty"},
 	"c03": {"fin-vs-empty", "deliver-vs-empty", "pause-vs-pump"},
 	"c13": {"fin-vs-empty", "deliver-vs-empty", "touch-cap"},
 	"c02": {"deliver-vs-disconnect", "touch-then-scan", "touch-cap", "touch-vs-timeout-scan"},
